@@ -185,8 +185,11 @@ func gen(r *sim.Rng, tier string) *sim.Case {
 	if r.Pct(30) {
 		p["plen"] = r.N(201)
 	}
-	if tier == "thorough" && r.Pct(5) {
-		p["plen"] = r.N(70000) // crosses io.Copy's 32 KiB buffer
+	if r.Pct(2) || (tier == "thorough" && r.Pct(5)) {
+		p["plen"] = []int{1024, 4096, 32767, 32768, 32769, 65536}[r.N(6)] + r.N(3) - 1 // crosses io.Copy's 32 KiB buffer
+		if r.Bool() {
+			p["plen"] = r.N(70000)
+		}
 	}
 	p["slen"] = []int{0, 1, 8, 16, 32, 33, 100}[r.N(7)]
 	if r.Pct(60) {
